@@ -175,3 +175,20 @@ Proof.
   intros. split; [intros; eapply BdfBudget.loop_budget; eauto | intros; now apply BdfBudget.step_budget_prefix].
 Qed.
 Print Assumptions C11_bdf_budget.
+
+(* ---------------- BDF: max_step, real-number semantics (proofs/BdfStepBounds.v) ----------------
+   One iteration of the solver moves the abscissa forward (in the direction of integration) by at most max_step and
+   never past xend -- for ANY right-hand side, Jacobian, callback, tolerances, Newton outcome and order history.
+   `hmax` is |max_step| (the interval length by default); min_step <= max_step is what makes the configuration valid. *)
+Require IVP.proofs.BdfStepBounds.
+Theorem C11_bdf_max_step :
+  forall (H : Type) (P : Bdf.params (F:=R)) n f jacf atolv rtolv newton_tol maxiter xend direction hmax hmin
+         (cb : H -> R -> R -> list R -> option (list R * R * R) -> H * flag R * list R),
+    (direction = 1 \/ direction = -1)%R -> (0 <= hmax)%R -> (hmin <= hmax)%R ->
+    forall s, (0 <= direction * (xend - Bdf.s_x _ s))%R ->
+    match Bdf.step Rops P n f jacf atolv rtolv newton_tol maxiter xend direction hmax hmin cb s with
+    | inl s' => (0 <= direction * (xend - Bdf.s_x _ s') /\ 0 <= direction * (Bdf.s_x _ s' - Bdf.s_x _ s) <= hmax)%R
+    | inr r => (0 <= direction * (xend - Bdf.r_x r) /\ 0 <= direction * (Bdf.r_x r - Bdf.s_x _ s) <= hmax)%R
+    end.
+Proof. intros; now apply (@BdfStepBounds.step_bounds H). Qed.
+Print Assumptions C11_bdf_max_step.
